@@ -435,3 +435,107 @@ class Proxy:
 
     def require(self, *a):
         return self.chk.require(*a)
+
+
+# ---- end-of-packet sentinel aliasing (shared by C16 R16.7 and C05 R05.12) -------------------------------------------------
+def _bit_read(F, e):
+    """(k, call id) when e (casts stripped) is oggpack_read/oggpack_look with a constant width k, else None"""
+    nd = F.ex[F.strip_casts(e)]
+    if nd['k'] == 'call' and nd['callee'].get('d') in ('oggpack_read', 'oggpack_look') and len(nd.get('c', ())) >= 2:
+        k = const_val(F, nd['c'][1])
+        if isinstance(k, int):
+            return k, F.strip_casts(e)
+    return None
+
+
+def eop_alias(chk, P, rule, funcs):
+    """Every test of a bit-reader result for the end-of-packet answer (-1) is made on a value wide enough to hold every legal
+    value of the field: a k-bit field narrowed to a type whose maximum is below 2^k-1 (a byte kept in a `char`) and *then*
+    compared with a negative constant (or tested for sign) takes the legal value that wraps to -1 for the end of the packet.
+    Narrowing alone (storing the byte) is fine; so is a test on the unnarrowed result.  32-bit fields are left out: a length
+    of 2^31 or more is refused on purpose by the same sign test.  Returns the number of sentinel tests examined."""
+    from absint import int_type_range
+    n = 0
+    for F in funcs:
+        if F.entry is None:
+            continue
+        defs_all = {}
+        for e in F.pos:
+            nd = F.ex[e]
+            if nd['k'] == 'decl':
+                for v in nd['vars']:
+                    if 'id' in v and v.get('init'):
+                        defs_all.setdefault(v['id'], []).append(v['init'])
+            elif nd['k'] == 'assign' and nd['op'] == '=':
+                l = F.ex[F.strip_casts(nd['c'][0])]
+                if l['k'] == 'ref' and l['decl']['kind'] == 'var':
+                    defs_all.setdefault(l['decl']['id'], []).append(nd['c'][1])
+
+        def narrowed(e, cap, depth=0):
+            """-> list of (k, call id, cap) for reads whose value reaches e through types of maximum `cap`"""
+            nd = F.ex[e]
+            k = nd['k']
+            if k == 'paren':
+                return narrowed(nd['c'][0], cap, depth)
+            if k == 'cast':
+                r = int_type_range(nd.get('t', ''))
+                return narrowed(nd['c'][0], min(cap, r[1]) if r else cap, depth)
+            if k == 'assign' and nd['op'] == '=':
+                r = int_type_range(nd.get('t', '') or F.ex[nd['c'][0]].get('t', ''))
+                return narrowed(nd['c'][1], min(cap, r[1]) if r else cap, depth)
+            if k == 'call':
+                br = _bit_read(F, e)
+                return [(br[0], br[1], cap)] if br else []
+            if k == 'ref' and nd['decl']['kind'] == 'var' and depth < 2:
+                r = int_type_range(nd.get('t', ''))
+                c2 = min(cap, r[1]) if r else cap
+                out = []
+                for d in defs_all.get(nd['decl']['id'], ()):
+                    out += narrowed(d, c2, depth + 1)
+                return out
+            return []
+        for e in sorted(F.pos):
+            nd = F.ex[e]
+            if nd['k'] != 'bin' or nd['op'] not in ('==', '!=', '<', '<=', '>', '>='):
+                continue
+            for a, b in ((nd['c'][0], nd['c'][1]), (nd['c'][1], nd['c'][0])):
+                cv = const_val(F, b)
+                if not isinstance(cv, int):
+                    continue
+                sentinel = cv < 0 or (cv == 0 and nd['op'] in ('<', '>=') and a == nd['c'][0]) or \
+                    (cv == 0 and nd['op'] in ('>', '<=') and a == nd['c'][1])
+                if not sentinel:
+                    continue
+                hits = [h for h in narrowed(a, float('inf')) if h[0] <= 31]
+                if not hits:
+                    continue
+                n += 1
+                bad = [h for h in hits if (1 << h[0]) - 1 > h[2]]
+                chk.ob(rule, F.name, f'sentinel-test-on-full-width:{F.s(a)[:40]}#{n}', not bad, F.where(e),
+                       (f'`{F.s(e)}` tests a {bad[0][0]}-bit field after it was narrowed to a type with maximum {bad[0][2]}: the legal '
+                        f'value {(1 << bad[0][0]) - 1} wraps to -1 and is taken for the end of the packet') if bad else
+                       f'`{F.s(e)}`: {[(h[0], h[2]) for h in hits]} (field bits, narrowest type maximum on the way)')
+    return n
+
+
+def eop_alias_selftest(chk, rule):
+    """positive / negative control for eop_alias on selftest/positive/eop_alias.c"""
+    import selfcheck
+    from facts import AnalysisBroken
+    P2 = selfcheck.control_program('eop_alias.c')
+
+    class Rec:
+        def __init__(self):
+            self.bad, self.good = set(), set()
+
+        def ob(self, rule_, fn, cons, ok, where, msg='', path=None):
+            (self.good if ok else self.bad).add(fn)
+    r = Rec()
+    eop_alias(r, P2, rule, list(P2.functions()))
+    need = {'pc_byte_in_char_compared', 'pc_short_local_sign_test', 'pc_explicit_cast'}
+    clean = {'pc_clean_wide_test', 'pc_clean_int_test', 'pc_clean_narrow_store_only'}
+    if not need <= r.bad:
+        raise AnalysisBroken(f'{rule} positive control not flagged: {sorted(need - r.bad)}')
+    if clean & r.bad:
+        raise AnalysisBroken(f'{rule} negative control flagged: {sorted(clean & r.bad)}')
+    chk.notes.append(f'{rule} controls: 3 narrowed sentinel tests flagged, 3 clean readers not flagged')
